@@ -52,11 +52,16 @@ def install_int_shims():
     _note('Fixed.__bool__/Guarded.__bool__ wrapped as bool(original(self))')
 
 
+ORIG_STR = {}
+
+
 def install_str_placeholder():
     "count mode: formatting is not the subject; log messages embed values through %s"
     import droop.values.fixed as fm
     import droop.values.guarded as gm
     import droop.values.rational as rm
+    for cls in (fm.Fixed, gm.Guarded, rm.Rational):
+        ORIG_STR.setdefault(cls, cls.__dict__['__str__'])
     fm.Fixed.__str__ = lambda self: '<v>'
     gm.Guarded.__str__ = lambda self: '<v>'
     rm.Rational.__str__ = lambda self: '<v>'
